@@ -281,15 +281,27 @@ VRun(F, s, off, n, In(_), Copy(_, _, _)) ==
 VRunSeq(F, s, off, x) ==
   VRun(F, s, off, Len(x), LAMBDA i : x[i], LAMBDA m, l, dd : CopyOK(LAMBDA i : x[i], m, l, dd))
 
-\* expected output = pattern pat repeated to n bytes.  A copy from a multiple of the period back
-\* reproduces the periodic continuation by construction (PeriodLemma, checked by MC_LZ at small
-\* scale), so it is not re-examined byte by byte.
+\* expected output given by its SHAPE  sh = [head, pat, nb, tail]:  the bytes of head, then the
+\* pattern pat repeated to nb bytes (the body), then the bytes of tail.  (Run = pattern of one
+\* byte; purely periodic = empty head and tail; "long compressible body, incompressible tail" and
+\* the mirrored form are the other members.)  A copy that lies entirely inside the body - source
+\* and destination - from a multiple of the period back reproduces the periodic continuation by
+\* construction (ShapeLemma, checked by MC_LZ at small scale), so it is not re-examined byte by
+\* byte; every other copy is.
+Shape(head, pat, nb, tail) == [head |-> head, pat |-> pat, nb |-> nb, tail |-> tail]
+SLen(sh) == Len(sh.head) + sh.nb + Len(sh.tail)
 PIn(pat, i) == pat[((i - 1) % Len(pat)) + 1]
-PCopyOK(pat, m, len, dd) == dd % Len(pat) = 0 \/ CopyOK(LAMBDA i : PIn(pat, i), m, len, dd)
-VRunPeriodic(F, s, off, pat, n) ==
-  VRun(F, s, off, n, LAMBDA i : PIn(pat, i), LAMBDA m, l, dd : PCopyOK(pat, m, l, dd))
-PeriodLemma(pat, m, len, dd) ==
-  (dd >= 1 /\ dd <= m /\ dd % Len(pat) = 0) => CopyOK(LAMBDA i : PIn(pat, i), m, len, dd)
+SIn(sh, i) == IF i <= Len(sh.head) THEN sh.head[i]
+              ELSE IF i <= Len(sh.head) + sh.nb THEN PIn(sh.pat, i - Len(sh.head))
+              ELSE sh.tail[i - Len(sh.head) - sh.nb]
+InBody(sh, m, len, dd) == m - dd >= Len(sh.head) /\ m + len <= Len(sh.head) + sh.nb
+SCopyOK(sh, m, len, dd) ==
+  (InBody(sh, m, len, dd) /\ dd % Len(sh.pat) = 0) \/ CopyOK(LAMBDA i : SIn(sh, i), m, len, dd)
+VRunShaped(F, s, off, sh) ==
+  VRun(F, s, off, SLen(sh), LAMBDA i : SIn(sh, i), LAMBDA m, l, dd : SCopyOK(sh, m, l, dd))
+ShapeLemma(sh, m, len, dd) ==
+  (dd >= 1 /\ dd <= m /\ InBody(sh, m, len, dd) /\ dd % Len(sh.pat) = 0)
+     => CopyOK(LAMBDA i : SIn(sh, i), m, len, dd)
 
 \* ------------------------------------------------------------------ size bounds (C10)
 \* fmt = "lz10" | "lz13".  H header bytes, R bytes per reference at most, L longest match.
@@ -329,9 +341,14 @@ CompressOKd(fmt, x, s, d) == StreamOKd(fmt, x, s, d) /\ SizeBound(fmt, Len(x), L
 CompressOK(fmt, x, s) ==
   Wrapped(fmt, s) /\ CompressOKd(fmt, x, s, Decode(CompFmt(fmt), s, CompOff(fmt)))
 
-\* C08 / C09 acceptance for an input given by its generator (pattern, n), n >= 1
-StreamOKPeriodic(fmt, pat, n, s) ==
-  Wrapped(fmt, s) /\ VRunPeriodic(CompFmt(fmt), s, CompOff(fmt), pat, n).st = "done"
+\* C08 / C09 acceptance for an input given by its shape (SLen >= 1).  For LZ13 only byte 1 of the
+\* wrapper is examined: bytes 2..4 are whatever the compressor writes (mila: an in-place
+\* decompression margin, reduced modulo 2^24), the statement gives them no meaning, and neither
+\* this acceptance nor the outcome classes of the decompression entry points (Route) read them -
+\* a decoder must not depend on them.
+StreamOKShaped(fmt, sh, s) ==
+  Wrapped(fmt, s) /\ VRunShaped(CompFmt(fmt), s, CompOff(fmt), sh).st = "done"
+StreamOKPeriodic(fmt, pat, n, s) == StreamOKShaped(fmt, Shape(<<>>, pat, n, <<>>), s)
 
 \* ------------------------------------------------------------------ greedy tokeniser (scaled model of mila's compressor)
 \* longest match at position i (0-based count of bytes consumed) with displacement dd, look-ahead look
